@@ -267,3 +267,28 @@ package workflow
 //@   ensures t.Defaults != nil ==> t.Defaults.parent == old(nodeDefaults(role))
 //@   ensures t.Vars != nil ==> t.Vars.parent == old(nodeVars(role))
 //@   ensures t.UserVars != nil ==> t.UserVars.parent == old(nodeUserVars(role))
+
+// C14: the adapter between the environment and the root role stores the three getters it is given in the slots its
+// GetDefaults / GetVars / GetUserVars read from, and those return exactly what the stored getter returns.
+//@ func NewParentAdapter(getEnvId GetEnvIdFunc, getCurrentRunNumber GetCurrentRunNumberFunc, getDefaults GetStringMapFunc, getVars GetStringMapFunc, getUserVars GetStringMapFunc, SendEvents SendEvents) (p *ParentAdapter)
+//@   property C14
+//@   ensures fresh(p) && p.getDefaultsFunc == getDefaults && p.getVarsFunc == getVars && p.getUserVarsFunc == getUserVars
+
+//@ func (p *ParentAdapter) GetDefaults() (m gera.Map[string, string])
+//@   property C14
+//@   ghostvar g gera.Map = nil
+//@   ghostvar called bool = false
+//@   on aftercall field.ParentAdapter.getDefaultsFunc : g = result ; called = true
+//@   ensures called && m == g
+//@ func (p *ParentAdapter) GetVars() (m gera.Map[string, string])
+//@   property C14
+//@   ghostvar g gera.Map = nil
+//@   ghostvar called bool = false
+//@   on aftercall field.ParentAdapter.getVarsFunc : g = result ; called = true
+//@   ensures called && m == g
+//@ func (p *ParentAdapter) GetUserVars() (m gera.Map[string, string])
+//@   property C14
+//@   ghostvar g gera.Map = nil
+//@   ghostvar called bool = false
+//@   on aftercall field.ParentAdapter.getUserVarsFunc : g = result ; called = true
+//@   ensures called && m == g
